@@ -22,7 +22,7 @@ time_t time(time_t *t) { if (t) *t = 1000000000; return 1000000000; }
 
 /* ---- configuration ---- */
 static int cf_rcpthosts, cf_more, cf_bmf, cf_liph; static const char *cf_relay; /* relay: 0 unset, "" empty, "@gw.example" */
-static const char *RH[] = { "a.example", ".sub.example", "MiXed.Example" };
+static const char *RH[] = { "a.example", ".sub.example", "MiXedZ.Example" };   /* Z: the last letter case folding must reach */
 static const char *MRH[] = { "more.example", ".wild.more.example" };
 static const char *BMF[][2] = { { 0, 0 }, { "spammer@bad.example", 0 }, { "@bad.example", "other@x.example" } };
 
@@ -71,7 +71,7 @@ static void build_cmds(void)
   add("DATA", 3, 0); add("DATA", 6, 0);   /* kind 6: the same command with a body over the databytes limit */
   add("MAIL FROM:<s@src.example>", 1, "s@src.example"); add("MAIL FROM:<>", 1, ""); add("mail from:<spammer@bad.example>", 1, "spammer@bad.example"); add("MAIL FROM:<x@BAD.example>", 1, "x@BAD.example");
   add(mail_long, 1, 0); add("MAIL FROM:<s2@src.example> SIZE=100", 1, "s2@src.example");
-  add("RCPT TO:<u@a.example>", 2, "u@a.example"); add("RCPT TO:<u@deep.sub.example>", 2, "u@deep.sub.example"); add("RCPT TO:<U@MIXED.example>", 2, "U@MIXED.example");
+  add("RCPT TO:<u@a.example>", 2, "u@a.example"); add("RCPT TO:<u@deep.sub.example>", 2, "u@deep.sub.example"); add("RCPT TO:<U@MIXEDZ.example>", 2, "U@MIXEDZ.example");
   add("RCPT TO:<m@more.example>", 2, "m@more.example"); add("RCPT TO:<w@x.wild.more.example>", 2, "w@x.wild.more.example"); add("RCPT TO:<f@foreign.example>", 2, "f@foreign.example");
   add("RCPT TO:<noat>", 2, "noat"); add("RCPT TO:<@relay.example:r@a.example>", 2, "r@a.example"); add("RCPT TO:<\"quo ted\"@a.example>", 2, "quo ted@a.example");
   add("RCPT TO:<back\\@slash@foreign.example>", 2, "back@slash@foreign.example"); add("rcpt to: bracketless@a.example", 2, "bracketless@a.example"); add("RCPT TO:<u@sub.example>", 2, "u@sub.example");
